@@ -2,9 +2,9 @@
  * from the staged tree, compiled with ASan (recover mode, outlined checks: see c39_track.h) and UBSan.
  *
  *   s <hex datagram> <hex tail>
- *        The datagram is placed at the start of an arena that stands for snmpHandleUdp()'s receive buffer (SNMP_REQUEST_SIZE octets)
- *        and what follows it in memory; <tail> = the octets memory holds right after the datagram ("-" = zeros, which is what
- *        snmpHandleUdp's memset leaves inside its buffer).  Everything from offset SNMP_REQUEST_SIZE on is ASan-poisoned: touching
+ *        The datagram is placed at the start of an arena that stands for snmpHandleUdp()'s receive buffer (SNMP_REQUEST_SIZE octets,
+ *        zeroed by its memset) and what follows it in memory; <tail> = the octets memory holds behind the buffer (at most 256).
+ *   S <hex datagram> <hex tail>   same, but <tail> lies directly behind the datagram (arbitrary memory; not a state squid can be in).  Everything from offset SNMP_REQUEST_SIZE on is ASan-poisoned: touching
  *        it is a genuine sanitizer report.  Every access of the decoder to the arena is tracked:
  *             over = (highest offset touched + 1) - len, 0 if the decoder stayed inside the datagram.
  *        Then snmp_parse() (= what snmpDecodePacket calls) runs and the decoded PDU is printed canonically.
@@ -81,7 +81,7 @@ static void putoid(const oid *o, int n)
     for (int i = 0; i < n; ++i) printf(i ? ".%u" : "%u", (unsigned)o[i]);
 }
 
-static void doSnmp(const char *dg, const char *tail)
+static void doSnmp(const char *dg, const char *tail, int faithful)
 {
     static unsigned char tmp[ARENA];
     long n = unhex(dg, tmp, ARENA);
@@ -91,7 +91,8 @@ static void doSnmp(const char *dg, const char *tail)
     memcpy(arena, tmp, (size_t)n);
     long t = unhex(tail, tmp, ARENA - BUFSZ);
     if (t < 0) { puts("bad-input"); return; }
-    memcpy(arena + n, tmp, (size_t)t);
+    /* s: the tail lies behind the (zeroed) buffer;  S: directly behind the datagram (arbitrary memory, not what squid has) */
+    memcpy(faithful ? arena + BUFSZ : arena + n, tmp, (size_t)t);
     const size_t dgLen = (size_t)n;
     vfTrackReset(dgLen);
     dbgClass = 0;
@@ -163,7 +164,7 @@ int main(void)
         char *op = strtok(line, " ");
         char *a = op ? strtok(NULL, " ") : NULL;
         char *b = a ? strtok(NULL, " ") : NULL;
-        if (op && !strcmp(op, "s") && a) doSnmp(a, b ? b : "-");
+        if (op && (!strcmp(op, "s") || !strcmp(op, "S")) && a) doSnmp(a, b ? b : "-", op[0] == 's');
         else puts("bad-op");
         fflush(stdout);
     }
